@@ -9,6 +9,7 @@
   executions (`delayed_only_recorded`, `rejected_unchanged`).
 -/
 import DymVerif.Lemmas.PacketsOnceOps
+import DymVerif.Lemmas.PacketsIndex
 import DymVerif.Lemmas.Base64
 namespace DymVerif.C04
 open DymVerif DymVerif.Keys DymVerif.Packets
@@ -271,8 +272,70 @@ theorem pending_retrievable_by_address_counterexample :
     (∃ p ∈ (run cexInit cexOps).packets, p.status = .pending ∧ p.target = 2) ∧ pendingByAddr (run cexInit cexOps) 2 = none := by
   decide
 
+/-- `List.mapM` in `Option`: succeeds when every element does, and returns exactly the images -/
+theorem mapM_option {α β : Type} (f : α → Option β) : ∀ (l : List α), (∀ x ∈ l, ∃ y, f x = some y) →
+    ∃ r, l.mapM f = some r ∧ ∀ y, y ∈ r ↔ ∃ x ∈ l, f x = some y
+  | [], _ => ⟨[], by simp, by simp⟩
+  | a :: t, h => by
+    obtain ⟨b, hb⟩ := h a List.mem_cons_self
+    obtain ⟨r, hr, hm⟩ := mapM_option f t (fun x hx => h x (List.mem_cons_of_mem _ hx))
+    refine ⟨b :: r, by simp [List.mapM_cons, hb, hr], ?_⟩
+    intro y
+    simp only [List.mem_cons, hm]
+    constructor
+    · rintro (rfl | ⟨x, hx, hy⟩)
+      · exact ⟨a, Or.inl rfl, hb⟩
+      · exact ⟨x, Or.inr hx, hy⟩
+    · rintro ⟨x, (rfl | hx), hy⟩
+      · left; rw [hb] at hy; exact (Option.some.inj hy).symm
+      · exact Or.inr ⟨x, hx, hy⟩
+
+/-- with an exact index the by-address query returns exactly the address's pending packets -/
+theorem pendingByAddr_exact {s : St} (hk : KeysNodup s.packets) (h : IdxOk s) (a : Addr) :
+    ∃ l, pendingByAddr s a = some l ∧ ∀ p, p ∈ l ↔ (p ∈ s.packets ∧ p.status = .pending ∧ p.target = a) := by
+  obtain ⟨fwd, bwd⟩ := h
+  unfold pendingByAddr
+  obtain ⟨r, hr, hm⟩ := mapM_option (fun e => getPacket s e.2) (s.byAddr.filter (·.1 == a)) (by
+    intro e he
+    obtain ⟨q, hq, h1, _, _⟩ := bwd e (List.mem_filter.mp he).1
+    exact ⟨q, h1 ▸ getPacket_of_mem hk hq⟩)
+  refine ⟨r, hr, fun p => ?_⟩
+  rw [hm]
+  constructor
+  · rintro ⟨e, he, hp⟩
+    obtain ⟨he1, he2⟩ := List.mem_filter.mp he
+    obtain ⟨q, hq, h1, h2, h3⟩ := bwd e he1
+    have : getPacket s e.2 = some q := h1 ▸ getPacket_of_mem hk hq
+    rw [this] at hp
+    cases hp
+    exact ⟨hq, h2, by rw [h3]; simpa using he2⟩
+  · rintro ⟨hp, hs, ht⟩
+    exact ⟨(p.target, pkey p), List.mem_filter.mpr ⟨fwd p hp hs, by simp [ht]⟩, getPacket_of_mem hk hp⟩
+
+/-- **pending_retrievable (by beneficiary address), partial** — in every history without eIBC
+    fulfilment (uint64 heights and sequences; channel table well formed, ids without '/': the
+    hypotheses of C19's key injectivity) the index is exact and the by-address query returns exactly
+    the address's pending packets. -/
+theorem pending_retrievable_by_address_partial (s0 : St) (h4 : Inv04 s0) (hi : IdxInv s0) (ops : List Op)
+    (hp : ∀ o ∈ ops, PlainOp o) :
+    IdxOk (run s0 ops) ∧
+    ∀ a, ∃ l, pendingByAddr (run s0 ops) a = some l ∧
+      ∀ p, p ∈ l ↔ (p ∈ (run s0 ops).packets ∧ p.status = .pending ∧ p.target = a) := by
+  have h := idx_run ops hp h4 hi
+  have hk := InvF.keys (inv_run ops h4)
+  exact ⟨⟨h.fwd, h.bwd⟩, fun a => pendingByAddr_exact hk ⟨h.fwd, h.bwd⟩ a⟩
+
+/-- the initial state of a run satisfies the index invariant when its channel table is well formed -/
+theorem idx_init (n : Nat) (fund : Int) (a b c : Dec) (r0 r1 : Bytes) (ch : List Chan)
+    (hc : CfgOk (initSt n fund a b c r0 r1 ch)) : IdxInv (initSt n fund a b c r0 r1 ch) where
+  cfg := hc
+  pk := by intro q hq; cases hq
+  orig := by intro q hq; cases hq
+  fwd := by intro q hq; cases hq
+  bwd := by intro e he; cases he
+
 /-- finalizing a packet whose target was never rewritten removes exactly its own index entry -/
-theorem pending_retrievable_by_address_partial (s s' : St) (k : Bytes) (p : Packet)
+theorem finalize_removes_own_index_entry (s s' : St) (k : Bytes) (p : Packet)
     (hp : getPacket s k = some p) (ho : p.orig = none) (hf : finalizePacket s k = .ok s') :
     s'.byAddr = s.byAddr.filter (fun e => !(e.1 == p.target && e.2 == pkey p)) := by
   unfold finalizePacket at hf
@@ -317,6 +380,24 @@ example : (recvPacket (run cexInit (demoOps.take 3)) 0 2 7 (cexRecv 2)).2 = .asy
 example : getBal (run cexInit demoOps).bal 2 1 = 1100 := by decide
 example : ((run cexInit (demoOps.take 4)).packets.map (fun p => (p.status, p.target))) = [(.pending, 2)] := by decide
 example : pendingByAddr (run cexInit (demoOps.take 4)) 2 = some (run cexInit (demoOps.take 4)).packets := by decide
+example : ∀ o ∈ demoOps, PlainOp o := by
+  intro o ho
+  simp only [demoOps, List.mem_cons, List.mem_nil_iff, or_false] at ho
+  rcases ho with rfl | rfl | rfl | rfl | rfl | rfl | rfl | rfl | rfl <;> simp [PlainOp]
+/-- the demo's channel table is well formed, so the partial theorem applies to its histories -/
+example : CfgOk cexInit where
+  raSep := by decide
+  chSep := by decide
+  canon := by
+    intro i j rid hi hj
+    have one : ∀ k rid, chanRollapp cexInit k = .ok (some rid) → k = 0 := by
+      intro k rid hk
+      cases k with
+      | zero => rfl
+      | succ n =>
+        have : cexInit.chans[n + 1]? = none := by simp [cexInit, initSt, cexChans]
+        simp [chanRollapp, this] at hk
+    rw [one i rid hi, one j rid hj]
 example : (match chanRollapp { cexInit with chans := cexChans ++ [{ hubId := [1], cpId := [2], rollapp := none, canonical := false }] } 1 with
     | .ok none => true | _ => false) = true := by decide
 example : (step (run cexInit (demoOps.take 7)) (.finalizeByKey 9 (encodePacketKey (rollappPacketKey .pending [114] 7 .onRecv [99, 55] 2)))).2 = .ok ∧
